@@ -24,8 +24,8 @@ fn main() {
     let (level, (cov, viol)) = match cli.prop.as_str() {
         "C02" => ("model_checking", c02::run(&cli, "C02")),
         "C14" => ("model_checking", c02::run(&cli, "C14")),
-        "C03" => ("exploration", c03::run(&cli)),
-        "C07" => ("fault_enumeration", c07::run(&cli)),
+        "C03" => ("model_checking", c03::run(&cli)),
+        "C07" => ("model_checking", c07::run(&cli)),
         "C13" => ("fault_enumeration", c13::run(&cli)),
         "C19" => ("model_checking", c19::run(&cli)),
         "C05" => ("model_checking", c05::run(&cli)),
